@@ -385,8 +385,34 @@ def c01_2(c: Ctx) -> None:
                 src = ds[0].value
             if isinstance(src, ast.Call) and isinstance(src.func, ast.Name) and src.func.id in ('tuple', 'list') and len(src.args) == 1:
                 src = src.args[0]
+            pass
+        if not good and isinstance(loop, ast.For) and ((isinstance(keyexpr, ast.Name) and isinstance(loop.target, ast.Tuple)) or (isinstance(keyexpr, ast.Attribute) and isinstance(loop.target, ast.Name)
+                                                                                                                       and U(keyexpr.value) == loop.target.id)):
+            src = loop.iter
+            seen_ = set()
+            while isinstance(src, ast.Name) and src.id not in seen_:
+                seen_.add(src.id)
+                ds = [n for n in own_nodes_list(u) if isinstance(n, (ast.Assign, ast.AnnAssign)) and n.value is not None and any(isinstance(t, ast.Name) and t.id == src.id for t in (n.targets if isinstance(n, ast.Assign) else [n.target]))]
+                ds = [d_ for d_ in ds if not (isinstance(d_.value, ast.Constant) and d_.value.value is None)]
+                if len(ds) != 1:
+                    break
+                src = ds[0].value
+            if isinstance(src, ast.Call) and isinstance(src.func, ast.Name) and src.func.id in ('tuple', 'list') and len(src.args) == 1:
+                src = src.args[0]
+            # records: `Rec(get_handler_id(h, self), h, ...)` of a NamedTuple class, read back as `r.<id field>` / `r.<handler field>`
+            if isinstance(src, (ast.GeneratorExp, ast.ListComp)) and len(src.generators) == 1 and not src.generators[0].ifs and isinstance(src.elt, ast.Call) and isinstance(src.elt.func, ast.Name) \
+                    and isinstance(src.generators[0].target, ast.Name) and isinstance(keyexpr, ast.Attribute) and isinstance(s.value, ast.Attribute) and U(s.value.value) == U(keyexpr.value):
+                ci = c.prog.classes.get(src.elt.func.id)
+                if ci is not None and any(U(b).split('.')[-1] == 'NamedTuple' for b in ci.node.bases) and not src.elt.keywords:
+                    fields = [st_.target.id for st_ in ci.node.body if isinstance(st_, ast.AnnAssign) and isinstance(st_.target, ast.Name)]
+                    by_field = dict(zip(fields, src.elt.args))
+                    hv_ = src.generators[0].target.id
+                    k_, v_ = by_field.get(keyexpr.attr), by_field.get(s.value.attr)
+                    if isinstance(k_, ast.Call) and call_name(k_) == 'get_handler_id' and len(k_.args) >= 2 and U(k_.args[0]) == hv_ and U(k_.args[1]) == u.params()[0] and v_ is not None and U(v_) == hv_:
+                        good = True
+                        kcall = k_
             if isinstance(src, (ast.GeneratorExp, ast.ListComp)) and len(src.generators) == 1 and not src.generators[0].ifs and isinstance(src.elt, ast.Tuple) and len(src.elt.elts) == 2 \
-                    and isinstance(src.generators[0].target, ast.Name):
+                    and isinstance(src.generators[0].target, ast.Name) and isinstance(keyexpr, ast.Name):
                 hv_ = src.generators[0].target.id
                 k_, v_ = src.elt.elts
                 if isinstance(k_, ast.Call) and call_name(k_) == 'get_handler_id' and len(k_.args) >= 2 and U(k_.args[0]) == hv_ and U(k_.args[1]) == u.params()[0] and U(v_) == hv_:
@@ -851,7 +877,7 @@ def c01_5(c: Ctx) -> None:
     }  # fmt: skip
     for status, done in cases + [(None, None)]:
         results = {} if status is None else {'HID': Rec(status=status, completed_at=done, started_at=None if status == 'pending' else 'T0')}
-        ai = AbsInt(calls=overrides)
+        ai = AbsInt(calls=overrides, program=c.prog, module=w.module)
         env = {ps[0]: Obj('EventBus', 'b'), ps[1]: Rec(event_results=results, event_path=['b'], event_id='E', event_parent_id=None), ps[2]: Obj('function', 'h')}
         ai.run(w.node.body, bind_defaults(w, env))
         rets = ai.returns
